@@ -373,13 +373,13 @@ Proof. intros [|]; [exact no_race_atomic | exact race_plain_flag]. Qed.
 (* ---------- the scripted instance computes ---------- *)
 Example script_nostop :
   run_script true 100 nostop [EvElim EMore; EvElim EDone; EvInit None; EvRest Cont; EvRest (Ret LUndef); EvInit None; EvRest (Ret LFalse)]
-  = (Some LFalse, 10).
+  = (Some LFalse, 9).
 Proof. vm_compute. reflexivity. Qed.
 Example script_stop_seen :
   run_script true 100 (stop_at_poll 5) [EvElim EMore; EvElim EDone; EvInit None; EvRest Cont; EvRest (Ret LUndef); EvInit None; EvRest (Ret LFalse)]
   = (Some LUndef, 7).
 Proof. vm_compute. reflexivity. Qed.
 Example script_stop_late :
-  run_script true 100 (stop_at_poll 10) [EvElim EMore; EvElim EDone; EvInit None; EvRest Cont; EvRest (Ret LUndef); EvInit None; EvRest (Ret LFalse)]
-  = (Some LFalse, 10).
+  run_script true 100 (stop_at_poll 9) [EvElim EMore; EvElim EDone; EvInit None; EvRest Cont; EvRest (Ret LUndef); EvInit None; EvRest (Ret LFalse)]
+  = (Some LFalse, 9).
 Proof. vm_compute. reflexivity. Qed.
